@@ -25,9 +25,15 @@ import (
 )
 
 // ---------------------------------------------------------------- schema
+type Office struct {
+	ID        int64 `gorm:"primaryKey"`
+	CompanyID int64
+	Name      string
+}
 type Company struct {
-	ID   int64 `gorm:"primaryKey"`
-	Name string
+	ID      int64 `gorm:"primaryKey"`
+	Name    string
+	Offices []Office
 }
 type Toy struct {
 	ID    int64 `gorm:"primaryKey"`
@@ -54,7 +60,7 @@ type User struct {
 	Langs     []Lang `gorm:"many2many:user_langs"`
 }
 
-var tables = []string{"companies", "toys", "pets", "langs", "users", "user_langs"}
+var tables = []string{"offices", "companies", "toys", "pets", "langs", "users", "user_langs"}
 
 // ---------------------------------------------------------------- inputs / observations
 type OpIn struct {
@@ -177,6 +183,18 @@ const (
 	litTx         = "finisher_api.go:DB.Transaction#0"
 )
 
+func joinedNested(t string) []string {
+	switch t {
+	case "users":
+		return nil
+	case "offices": // preloadDB for the joined Company value, then the nested preload's own two sessions
+		return []string{litPreload, litPreloadEP, litPreload}
+	case "toys":
+		return []string{litPreload, litPreloadEP, litPreload}
+	}
+	return []string{litPreload}
+}
+
 func only(main string, p ...string) func(string) []string {
 	return func(t string) []string {
 		if t == main {
@@ -192,7 +210,7 @@ var nextName int
 func name(p string) string { nextName++; return fmt.Sprintf("%s%d", p, nextName) }
 
 func newUser() *User {
-	return &User{Name: name("u"), Age: 30, Company: &Company{Name: name("c")},
+	return &User{Name: name("u"), Age: 30, Company: &Company{Name: name("c"), Offices: []Office{{Name: name("o")}, {Name: name("o")}}},
 		Pets:  []Pet{{Name: name("p"), Toys: []Toy{{Name: name("t")}}}, {Name: name("p")}},
 		Langs: []Lang{{Name: name("l")}, {Name: name("l")}}}
 }
@@ -205,7 +223,7 @@ var families = []fam{
 				return nil
 			case "user_langs":
 				return []string{litJoin0, litJoin1}
-			case "toys":
+			case "toys", "offices":
 				return []string{litAssoc0, litAssoc1, litAssoc0, litAssoc1}
 			}
 			return []string{litAssoc0, litAssoc1}
@@ -217,7 +235,7 @@ var families = []fam{
 				return nil
 			case "user_langs":
 				return []string{litJoin0, litJoin1}
-			case "toys":
+			case "toys", "offices":
 				return []string{litAssoc0, litAssoc1, litAssoc0, litAssoc1}
 			}
 			return []string{litAssoc0, litAssoc1}
@@ -258,6 +276,8 @@ var families = []fam{
 		switch t {
 		case "users":
 			return nil
+		case "offices":
+			return []string{litAssoc0, litAssoc1, litAssoc0, litAssoc1}
 		case "companies", "langs", "toys":
 			return []string{litAssoc0, litAssoc1}
 		case "user_langs":
@@ -290,6 +310,41 @@ var families = []fam{
 		var us []User
 		return h.Joins("Company").Preload("Pets").Find(&us).Error
 	}, path: only("users", litPreload)},
+	// a preload nested under a JOINED relation: the joined value gets an internal session of its own
+	// (preloadDB), from which the nested preload derives two more; single-struct and slice destinations
+	{name: "joins_nested_preload_first", run: func(h *gorm.DB) error {
+		var u User
+		return h.Joins("Company").Preload("Company.Offices").First(&u).Error
+	}, path: joinedNested},
+	{name: "joins_nested_preload_take_last", run: func(h *gorm.DB) error {
+		var u, v User
+		if err := h.Joins("Company").Preload("Company.Offices").Preload("Pets.Toys").Take(&u).Error; err != nil {
+			return err
+		}
+		return h.Joins("Company").Preload("Company.Offices").Last(&v).Error
+	}, path: joinedNested},
+	{name: "joins_nested_preload_find_one", run: func(h *gorm.DB) error {
+		var u User
+		return h.Joins("Company").Preload("Company.Offices").Where("users.id = ?", 1).Find(&u).Error
+	}, path: joinedNested},
+	{name: "joins_nested_preload_find", run: func(h *gorm.DB) error {
+		var us []User
+		return h.Joins("Company").Preload("Company.Offices").Preload("Langs").Find(&us).Error
+	}, path: joinedNested},
+	{name: "joins_nested_preload_ptrs", run: func(h *gorm.DB) error {
+		var us []*User
+		return h.Joins("Company").Preload("Company.Offices").Find(&us).Error
+	}, path: joinedNested},
+	{name: "joins_nested_preload_in_tx", run: func(h *gorm.DB) error {
+		return h.Transaction(func(tx *gorm.DB) error {
+			var u User
+			if err := tx.Joins("Company").Preload("Company.Offices").First(&u).Error; err != nil {
+				return err
+			}
+			var us []User
+			return tx.Joins("Company").Preload("Company.Offices").Find(&us).Error
+		})
+	}, path: func(t string) []string { return append([]string{litBegin}, joinedNested(t)...) }},
 	{name: "assoc_append", run: func(h *gorm.DB) error {
 		return h.Model(&User{ID: 1}).Association("Langs").Append(&Lang{Name: name("al")})
 	}, path: always(litAssocSave0, litAssocSave1)},
@@ -418,15 +473,16 @@ var families = []fam{
 			return []string{litBegin}
 		case "user_langs":
 			return []string{litBegin, litJoin0, litJoin1}
-		case "pets":
-			return []string{litBegin, litAssoc0, litAssoc1}
+		case "offices", "toys":
+			return []string{litBegin, litAssoc0, litAssoc1, litAssoc0, litAssoc1}
 		}
 		return []string{litBegin, litAssoc0, litAssoc1}
 	}},
 }
 
 // families that call exactly one finisher on the handle they are given
-var singleCall = map[string]bool{"create_assoc": true, "create_slice": true, "preload": true, "preload_nested": true,
+var singleCall = map[string]bool{"joins_nested_preload_first": true, "joins_nested_preload_find_one": true, "joins_nested_preload_find": true, "joins_nested_preload_ptrs": true,
+	"create_assoc": true, "create_slice": true, "preload": true, "preload_nested": true,
 	"joins": true, "joins_preload": true, "count": true, "pluck": true, "first": true, "updates": true, "update_where": true,
 	"delete_where": true, "exec": true, "rows": true, "row": true, "scan": true, "raw_scan": true, "create_in_batches": true}
 
@@ -466,7 +522,7 @@ func runCase(in Input, facts srcfacts.Facts) Obs {
 	db, rec, sqlDB, err := gdb.Open(gdb.Opt{DSN: dsn, Config: &gorm.Config{PrepareStmt: in.Prep, DisableForeignKeyConstraintWhenMigrating: true}})
 	lib.Must(err)
 	defer sqlDB.Close()
-	lib.Must(db.AutoMigrate(&Company{}, &Toy{}, &Pet{}, &Lang{}, &User{}))
+	lib.Must(db.AutoMigrate(&Office{}, &Company{}, &Toy{}, &Pet{}, &Lang{}, &User{}))
 	nextName = 0
 	for i := 0; i < 2; i++ {
 		lib.Must(db.Create(newUser()).Error)
@@ -771,7 +827,7 @@ func main() {
 		add("derived", Input{Prep: true, Ops: []OpIn{{Fam: "create_assoc", Bind: "with", Tag: tag, Derive: d}, {Fam: "preload_nested", Bind: "session", Tag: tag + 1, Derive: d, Cancelled: true}}})
 		tag++
 	}
-	budget := 480
+	budget := 520
 	if a.Tier == "thorough" {
 		budget = 2500
 	}
@@ -803,7 +859,7 @@ func main() {
 		}
 		add("main", in)
 	}
-	out.Extra["rule"] = "cases = programs of 1..4 operations on one database, each operation from one of " + fmt.Sprint(len(families)) + " families (Create with belongs-to/has-many/many2many values, CreateInBatches, Save existing/missing, Updates, Delete with Select(associations), Preload single/nested/clause.Associations, Joins, Association Append/Replace/Delete/Clear/Count/Find, FindInBatches with a statement from the batch handle, Count, Pluck, First/Take/Last, FirstOrCreate, Scan, Rows, Row, Raw, Exec, Transaction plain/nested with save points/rolled back, Begin..Commit) started from db.WithContext(ctx) or db.Session(&Session{Context: ctx}) with a distinct tag, optionally through a further caller-derived session Session{NewDB / SkipHooks / PrepareStmt / SkipDefaultTransaction / DisableNestedTransaction / AllowGlobalUpdate / FullSaveAssociations / PropagateUnscoped / QueryFields / Initialized / CreateBatchSize combinations} that does not repeat the context, PrepareStmt on/off, 1/8 pre-cancelled; distinct = distinct (PrepareStmt, family/bind/cancelled sequence); non-trivial = at least 2 driver events observed"
+	out.Extra["rule"] = "cases = programs of 1..4 operations on one database, each operation from one of " + fmt.Sprint(len(families)) + " families (Create with belongs-to/has-many/many2many values, CreateInBatches, Save existing/missing, Updates, Delete with Select(associations), Preload single/nested/clause.Associations, Joins, Joins + preload nested under the joined relation with First/Take/Last/Find(&one)/Find(&slice)/Find(&[]*T) destinations and inside Transaction, Association Append/Replace/Delete/Clear/Count/Find, FindInBatches with a statement from the batch handle, Count, Pluck, First/Take/Last, FirstOrCreate, Scan, Rows, Row, Raw, Exec, Transaction plain/nested with save points/rolled back, Begin..Commit) started from db.WithContext(ctx) or db.Session(&Session{Context: ctx}) with a distinct tag, optionally through a further caller-derived session Session{NewDB / SkipHooks / PrepareStmt / SkipDefaultTransaction / DisableNestedTransaction / AllowGlobalUpdate / FullSaveAssociations / PropagateUnscoped / QueryFields / Initialized / CreateBatchSize combinations} that does not repeat the context, PrepareStmt on/off, 1/8 pre-cancelled; distinct = distinct (PrepareStmt, family/bind/cancelled sequence); non-trivial = at least 2 driver events observed"
 	lib.Must(out.Flush())
 }
 
